@@ -303,25 +303,19 @@ func c12Client(c *Ctx) {
 	}
 	c.Check(nUse == 1, "C12.D5-client-workflow", key+" › one expansion site", f.SSA.Pos(), "one provider expansion", "expected one GetResults call")
 	// metadata-only result built from the same values
-	instrs(f.SSA, func(in ssa.Instruction) {
-		sel, ok := in.(*ssa.Select)
-		if !ok {
-			return
+	for _, ss := range c.SendSites(findClientPkgOf(f)) {
+		if topFunc(ss.Fn) != f.SSA {
+			continue
 		}
-		for _, st := range sel.States {
-			if st.Send == nil {
-				continue
-			}
-			v := c.E(st.Send)
-			if v.Op != "complit" {
-				continue
-			}
-			fs := c.CellFields(v)
-			okF := fs["ContextID"] != nil && Same(fs["ContextID"], ctxID) && fs["Metadata"] != nil && Same(fs["Metadata"], md)
-			_, g := c.Guarded(sel, EqNil(Is(mdErr)), true)
-			c.Check(okF && g, "C12.D5-client-workflow", key+" › metadata-only result", sel.Pos(), "result carries the decrypted context ID and metadata, on err == nil", "metadata-only result not built from the decrypted values")
+		v := ss.Val
+		if v.Op != "complit" {
+			continue
 		}
-	})
+		fs := c.CellFields(v)
+		okF := fs["ContextID"] != nil && Same(fs["ContextID"], ctxID) && fs["Metadata"] != nil && Same(fs["Metadata"], md)
+		_, g := c.Guarded(ss.At, EqNil(Is(mdErr)), true)
+		c.Check(okF && g, "C12.D5-client-workflow", key+" › metadata-only result", ss.Pos, "result carries the decrypted context ID and metadata, on err == nil", "metadata-only result not built from the decrypted values")
+	}
 	if fm != nil {
 		k2 := fm.Name
 		vkp := Op("param", fm.SSA.Params[2].Name())
@@ -383,4 +377,9 @@ func c12ValueKey(c *Ctx) {
 		c.Check(ok, "C12.D6-value-key", sm.Name+" › double SHA-256 multihash", sm.SSA.Pos(), "second hash = DBL_SHA2_256 multihash of SHA-256(prefix ‖ multihash)", "second hash is not the DBL_SHA2_256 encoding of SHA-256 over (prefix, multihash)")
 	}
 	c.Floor("C12.D6-value-key", 3)
+}
+
+// findClientPkgOf: module-relative path of the package a function belongs to.
+func findClientPkgOf(f *Fn) string {
+	return strings.TrimPrefix(strings.TrimPrefix(f.Pkg.PkgPath, modPath), "/")
 }
